@@ -12,7 +12,7 @@
 //!                 near-threshold, constant / ramp / low-TT-rank and arbitrary vectors through
 //!                 save_to_file, the uncompressed writer and to_bytes/from_bytes.
 //!  * `kill`       previous snapshot P at a path, new content N saved to the same path in a child
-//!                 process with RLIMIT_FSIZE = L (one L per case: around the header, around |N|, interior);
+//!                 process with RLIMIT_FSIZE = L (one L per case: around the header, absolute up to 4000, around |N|);
 //!                 the path must then load as P or N entirely. Writers: save_snapshot,
 //!                 save_v3_uncompressed, save_snapshot_compressed, checkpoint.
 //!  * `kill_all`   the same with every L in 0..=|N|+2 for small snapshots.
@@ -32,14 +32,14 @@ use tensor_store::{SlabRouter, SlabRouterConfig, TensorStore};
 struct RtCase {
     content: Content,
     /// bit 0 delta_encoding, bit 1 rle_encoding, bit 2 tensor-train mode (if the content allows it),
-    /// bit 3 load with bloom filter
+    /// bit 3 load with bloom filter, bit 4 restore_from_bytes into a used store instead of a fresh one
     sel: u8,
     /// content of the store that restore_from_bytes overwrites
     pre: Content,
 }
 
 fn rt_strategy(t: Tier) -> impl Strategy<Value = RtCase> {
-    (content_strategy(t), 0u8..16, model::tiny_content_strategy()).prop_map(|(content, sel, pre)| RtCase { content, sel, pre })
+    (content_strategy(t), 0u8..32, model::tiny_content_strategy()).prop_map(|(content, sel, pre)| RtCase { content, sel, pre })
 }
 
 struct Orig<'a> {
@@ -155,22 +155,26 @@ fn roundtrip(c: &RtCase, ctx: &mut CaseCtx) -> Result<(), Fail> {
                     cmp.router(&o.r, &n_r, &b.probes)?;
                 },
             }
-            let fresh = TensorStore::new();
-            match fresh.restore_from_bytes(&bytes) {
-                Err(e) => ctx.fail("bytes-restore:load-failed", format!("restore_from_bytes failed: {e}"))?,
-                Ok(()) => compare_store("bytes-restore", Mode::Exact, &fresh, &o, ctx)?,
-            }
-            let used = TensorStore::new();
-            let _ = build_into(&c.pre, &used);
-            match used.restore_from_bytes(&bytes) {
-                Err(e) => ctx.fail("bytes-restore-used:load-failed", format!("restore_from_bytes into a used store failed: {e}"))?,
-                Ok(()) => compare_store("bytes-restore-used", Mode::Exact, &used, &o, ctx)?,
+            if c.sel & 16 == 0 {
+                let fresh = TensorStore::new();
+                match fresh.restore_from_bytes(&bytes) {
+                    Err(e) => ctx.fail("bytes-restore:load-failed", format!("restore_from_bytes failed: {e}"))?,
+                    Ok(()) => compare_store("bytes-restore", Mode::Exact, &fresh, &o, ctx)?,
+                }
+            } else {
+                ctx.label("restore_from_bytes into a used store");
+                let used = TensorStore::new();
+                let _ = build_into(&c.pre, &used);
+                match used.restore_from_bytes(&bytes) {
+                    Err(e) => ctx.fail("bytes-restore-used:load-failed", format!("restore_from_bytes into a used store failed: {e}"))?,
+                    Ok(()) => compare_store("bytes-restore-used", Mode::Exact, &used, &o, ctx)?,
+                }
             }
         },
     }
 
     // ---- quantising format
-    let tt = c.sel & 4 != 0 && tt_eligible(&o.r);
+    let tt = (c.sel & 4 != 0 || c.content.uniform) && tt_eligible(&o.r);
     let cfg = tensor_compress::CompressionConfig {
         tensor_mode: if tt { Some(tensor_compress::TensorMode::TensorTrain(tensor_compress::TTConfig::for_dim(384).map_err(|e| Fail::new("harness", e.to_string()))?)) } else { None },
         delta_encoding: c.sel & 1 != 0,
@@ -181,7 +185,11 @@ fn roundtrip(c: &RtCase, ctx: &mut CaseCtx) -> Result<(), Fail> {
     }
     let p = dir.join("quant.snap");
     match store.save_snapshot_compressed(&p, cfg) {
-        Err(e) => ctx.fail("quant:save-failed", format!("save_snapshot_compressed failed: {e}"))?,
+        Err(e) => {
+            let es = e.to_string();
+            let sig = if tt && es.contains("empty matrix") { "quant:save-failed:tt-decompose-empty-matrix" } else { "quant:save-failed" };
+            ctx.fail(sig, format!("save_snapshot_compressed failed: {es}"))?
+        },
         Ok(()) => match TensorStore::load_snapshot_compressed(&p) {
             Err(e) => ctx.fail("quant:load-failed", format!("load_snapshot_compressed failed: {e}"))?,
             Ok(l) => compare_store("quant", Mode::Quant { tt }, &l, &o, ctx)?,
@@ -260,7 +268,7 @@ fn main() {
     main_for(PropDef {
         id: "C07",
         level: "fault_enumeration",
-        rule: "roundtrip: a store built through RelationalEngine (tables of 1-6 columns over all 6 column types, NULLs, deletes, updates, indexes), GraphEngine (nodes/edges with all property kinds), VectorEngine and raw puts (12 metadata/graph/table/blob-class keys, 8 emb: keys with slab-dimension and off-dimension vectors, cache keys, deletes, every TensorValue/ScalarValue kind incl. int extremes, NaN/inf/-0.0, empty strings, bytes, sparse vectors, pointers) plus the internal graph-tensor and blob-log slabs; sizes 0, 1, a handful, ~50 and generated bulk (quick <= 600, thorough <= 40 000 entries); each case goes through all five snapshot forms. embdims: SlabRouter with embedding dimension 4/64/255/256/384/768 and up to 10 raw operations. kill: one child save with RLIMIT_FSIZE=L per case (L absolute 0..48, |N|-12..|N|+3, or interior) over 4 writers and 4 path shapes; kill_all: every L in 0..=|N|+2 (snapshots up to 700 bytes quick / 3000 thorough, stratified above). non-trivial = the store holds >= 3 data classes (relational, graph, embeddings, metadata, blobs, cache, graph-tensor, blob-log), or a child save was killed strictly inside the payload (L above the 20-byte header); distinct = distinct generated case",
+        rule: "roundtrip: a store built through RelationalEngine (tables of 1-6 columns over all 6 column types, NULLs, deletes, updates, indexes), GraphEngine (nodes/edges with all property kinds), VectorEngine and raw puts (12 metadata/graph/table/blob-class keys, 8 emb: keys with slab-dimension and off-dimension vectors, cache keys, deletes, every TensorValue/ScalarValue kind incl. int extremes, NaN/inf/-0.0, empty strings, bytes, sparse vectors, pointers) plus the internal graph-tensor and blob-log slabs; sizes 0, 1, a handful, ~50 and generated bulk (quick <= 600, thorough <= 40 000 entries); each case goes through all five snapshot forms. embdims: SlabRouter with embedding dimension 4/64/255/256/384/768 and up to 10 raw operations. kill: one child save with RLIMIT_FSIZE=L per case (L absolute in 0..48 / 48..200 / 200..800 / 800..4000, or |N|-12..|N|+3) over 4 writers and 4 path shapes; kill_all: every L in 0..=|N|+2 (when the uncompressed form of N is at most 3 000 bytes quick / 24 000 thorough, i.e. a few hundred to ~2 500 compressed bytes; stratified above). non-trivial = the store holds >= 3 data classes (relational, graph, embeddings, metadata, blobs, cache, graph-tensor, blob-log), or a child save was killed strictly inside the payload (L above the 20-byte header); distinct = distinct generated case",
         assumptions: vec![
             "oracle = the store's own readers applied to the original and to the reloaded store: scan+get of every key, embedding slab, metadata copy of _embedding, entity-index keys, relational slab scan_all + schema, graph tensor adjacency and edge data, blob log, RelationalEngine select/get_schema/row_count, GraphEngine get_node/get_edge/neighbors, VectorEngine get_embedding; values compared through canonical bitcode bytes (floats bitwise)",
             "embedding-slab vectors: dimension < 256 and fewer than half components <= 1e-6: bit-identical; at least half components <= 1e-6 (sparse form): identical except that components with |v| <= 1e-6 may come back as +0.0; dimension >= 256 otherwise (tensor-train): same length, finite if the input was finite, and relative L2 error <= 1e-3 for vectors generated with TT-rank <= 3 (constant, linear ramp, sum of <= 3 separable terms over the documented shapes 4x8x8 / 4x8x12 / 8x8x12) whose largest component is in [1e-2, 1e6]",
@@ -270,10 +278,10 @@ fn main() {
             "entity ids are not compared (not observable through the store API); the compressed size of a snapshot varies by a few bytes between processes (hash-map field order), so |N| is known to the parent only approximately",
         ],
         parts: vec![
-            PropPart::new("roundtrip", 6_000, 250_000, rt_strategy, roundtrip).shrink_iters(400).boxed(),
-            PropPart::new("embdims", 6_000, 300_000, dim_strategy, embdims).shrink_iters(600).boxed(),
-            PropPart::new("kill", 4_000, 200_000, atomic::kill_strategy, atomic::kill_check).shrink_iters(150).boxed(),
-            PropPart::new("kill_all", 40, 1_500, atomic::kill_all_strategy, atomic::kill_all_check).shrink_iters(30).boxed(),
+            PropPart::new("roundtrip", 1_200, 24_000, rt_strategy, roundtrip).shrink_iters(400).boxed(),
+            PropPart::new("embdims", 1_600, 30_000, dim_strategy, embdims).shrink_iters(600).boxed(),
+            PropPart::new("kill", 1_000, 22_000, atomic::kill_strategy, atomic::kill_check).shrink_iters(150).boxed(),
+            PropPart::new("kill_all", 8, 160, atomic::kill_all_strategy, atomic::kill_all_check).shrink_iters(30).boxed(),
         ],
         children: vec![("save", Box::new(atomic::child_save))],
     });
